@@ -1,7 +1,7 @@
 from algo_prop import make
 ALGOS = ["T_HOO", "HCT", "VHCT", "POO", "GPO", "PCT", "VPCT", "DOO", "SOO", "StoSOO", "SequOOL", "StroquOOL", "VROOM", "Zooming"]
 LEAN_EXTRA = ["PyXABProofs.Props.C06", "PyXABProofs.Props.C08", "PyXABProofs.Props.C09", "PyXABProofs.Props.C10", "PyXABProofs.Props.C11", "PyXABProofs.Props.C12", "PyXABProofs.Props.C13", "PyXABProofs.Props.StroquOOL"]
-budget, explore, search, replay = make("C01", ALGOS, quick_per_algo=15, thorough_per_algo=100, salt=100)
+budget, explore, search, replay = make("C01", ALGOS, quick_per_algo=15, thorough_per_algo=70, salt=100)
 RULE = ("the documented pull/receive loop on all 14 real classes (wrappers over each base learner): algorithm x partition class "
         "(K 2..5) x dimension 1..3 x seven box shapes x documented parameter ranges x ten reward modes x five split-fraction modes, "
         "20..150 rounds (StroquOOL: its full budget), each call under a CPU-time budget (a hang is reported, never a stuck check); "
